@@ -35,6 +35,11 @@ func prioritySets(quick bool) [][]uint {
 			out = append(out, l)
 		}
 	}
+	// priority values at the top of the type, 2^63 or more apart
+	u := uint(1) << 60
+	for _, l := range [][]uint{{11 * u, u}, {11 * u, 2 * u, u}, {1<<64 - 1, 1}, {1 << 63, 5, 1}, {1<<64 - 1, 1 << 63, 1 << 62}, {15 * u, 7 * u, 3}} {
+		out = append(out, l)
+	}
 	// {1..6} and its subsets
 	six := []uint{6, 5, 4, 3, 2, 1}
 	for mask := 1; mask < 1<<6; mask++ {
